@@ -83,6 +83,10 @@ pub struct StepThroughWithData {
 
     /// Whether or not the step-through is finished.
     finished: bool,
+
+    /// Whether or not the step-through has reported an error, after which it
+    /// yields nothing further.
+    errored: bool,
 }
 
 impl std::fmt::Debug for StepThroughWithData {
@@ -122,6 +126,7 @@ impl StepThroughWithData {
             expected_reference_end,
             data,
             finished: false,
+            errored: false,
         })
     }
 
@@ -155,6 +160,25 @@ impl Iterator for StepThroughWithData {
     type Item = Result<(ContiguousIntervalPair, data::Record), Error>;
 
     fn next(&mut self) -> Option<Self::Item> {
+        // Once an error has been reported the pointers are no longer
+        // meaningful: the iterator is exhausted.
+        if self.errored {
+            return None;
+        }
+
+        let item = self.step();
+
+        if let Some(Err(_)) = item {
+            self.errored = true;
+        }
+
+        item
+    }
+}
+
+impl StepThroughWithData {
+    /// Performs one step of the iteration.
+    fn step(&mut self) -> Option<<Self as Iterator>::Item> {
         let chunk = match self.data.next() {
             Some(c) => c,
             None => match self.finish() {
